@@ -56,6 +56,12 @@ class Management:
             self.xknx.task_registry.background(
                 self.xknx.cemi_handler.send_telegram(ack)
             )
+        if isinstance(telegram.tpci, TDataBroadcast):
+            # before the connection lookup - a broadcast of a device we are
+            # connected to is not a response on that connection
+            for context in self._broadcast_contexts:
+                context.queue.put_nowait(telegram)
+            return
         if conn := self._connections.get(telegram.source_address):
             conn.process(telegram)
             return
@@ -75,10 +81,6 @@ class Management:
             self.xknx.task_registry.background(
                 self.xknx.cemi_handler.send_telegram(disconnect)
             )
-            return
-        if isinstance(telegram.tpci, TDataBroadcast):
-            for context in self._broadcast_contexts:
-                context.queue.put_nowait(telegram)
             return
         logger.debug("Unhandled management telegram: %r", telegram)
         return
